@@ -29,7 +29,7 @@ def thresholds(tier):
        "stdlib_components_cosimulated": 60, "generated_designs_cosimulated": 150, "param_designs_cosimulated": 60, "svsim_lrm_examples_ok": 24, "struct_constants_evaluated_in_text": 40, "hetero_list_designs": 16,
        "struct_leaf_ports_mapped": 300, "array_element_ports_mapped": 300}
   if tier == "thorough":
-    t.update({"programs": 3200, "generated_designs_cosimulated": 3000, "cycles_cosimulated": 70000})
+    t.update({"programs": 2400, "generated_designs_cosimulated": 2200, "cycles_cosimulated": 50000})
   return t
 
 
